@@ -212,6 +212,9 @@ class RefDEVS:
         if eid == "W":
             self.obs = []          # the warm-up resets the simulation statistics
             self.warm_done = True
+            for i, v, w in self.p.get("warmup_obs", ()):
+                # a subscriber of the warm-up notification that observes (after the reset)
+                self.obs.append((i % max(1, self.p.get("_n_stats", 1)), v, w, self.clock))
         if eid != "W":
             for i, a in enumerate(self.p["events"][str(eid)]):
                 if self._perform(eid, i, a) == "fail":
